@@ -350,8 +350,107 @@ def corr_class_heads(ctx, corr):
                                            what="class head `%s S %s`: %s" % (key, ' '.join(toks), msg)))
 
 
+# ---------------------------------------------------------------------------
+# the class / enum dispatch behind an elaborated type: extracted class_enum (Parse/ClassEnum.v) vs the real
+# _maybe_parse_class_enum_decl on the same (class key, specifiers, template, typedef, friend, tokens)
+
+CE_KEYS = [(), ('struct',), ('class',), ('union',), ('enum',), ('enum', 'class'), ('enum', 'struct')]
+CE_FLAGS = ['const', 'volatile', 'constexpr', 'extern', 'inline', 'static', 'explicit', 'virtual', 'mutable']
+CE_NEXT = [';', ';', '{', ':', 'final', 'explicit', 'x', '*', '(', '=', ',', '[[', '}', 'int']
+CE_OUT = {0: 'forward', 1: 'friend', 2: 'class', 3: 'enum', 4: 'none'}
+
+
+def real_class_enum(key, flags, template, is_typedef, is_friend, strs):
+    from cxxheaderparser import parserstate as PS
+    from harness import decl
+    toks = [impl.mk_tok(decl.tok_type(s), s) for s in strs]
+    p = impl.parser_over(toks)
+    got = []
+
+    class Rec(impl.NullVisitor):
+        def on_forward_decl(self, state, f):
+            got.append('forward')
+
+        def on_class_friend(self, state, f):
+            got.append('friend')
+    p.visitor = Rec()
+    p._parse_class_decl = lambda *a, **k: got.append('class')
+    p._parse_enum_decl = lambda *a, **k: got.append('enum')
+    if is_friend:
+        cd = T.ClassDecl(T.PQName([T.NameSpecifier('Host')], classkey='struct'))
+        p.state = PS.ClassBlockState(p.state, impl.L.Location("<list>", 1), cd, 'public', False, PS.ParsedTypeModifiers({}, {}, {}))
+    vars_, both, meths = {}, {}, {}
+    for f in flags:
+        t = impl.mk_tok(f, f)
+        if f == 'mutable':
+            vars_[f] = t
+        elif f in ('explicit', 'virtual'):
+            meths[f] = t
+        elif f in ('constexpr', 'extern', 'inline', 'static'):
+            both[f] = t
+    mods = PS.ParsedTypeModifiers(vars_, both, meths)
+    pt = T.Type(T.PQName([T.NameSpecifier('X')], classkey=' '.join(key) or None), const='const' in flags, volatile='volatile' in flags)
+    tmpl = T.TemplateDecl([T.TemplateTypeParam('typename', 'T')]) if template else None
+    try:
+        r = p._maybe_parse_class_enum_decl(pt, mods, None, tmpl, is_typedef, is_friend, impl.L.Location("<list>", 1))
+    except (impl.CxxParseError, EOFError):
+        return ('err',)
+    except (AssertionError, IndexError, KeyError, AttributeError, TypeError):
+        return ('other',)
+    if r is False:
+        return ('ok', len(p.lex.tokbuf), 'none') if not got else ('other',)
+    if len(got) != 1:
+        return ('other',)
+    return ('ok', len(p.lex.tokbuf), got[0])
+
+
+def model_class_enum(cases):
+    from harness import decl
+    lines = []
+    for key, flags, template, td, fr, strs in cases:
+        names = decl.Names()
+        lines.append([100, int(template), int(td), int(fr)] + [int(f in flags) for f in CE_FLAGS] + [len(key)] + [impl.CODE[k] for k in key]
+                     + decl.enc_tokens(strs, names))
+    res = []
+    for o in run_driver(lines):
+        res.append(('ok', o[1], CE_OUT[o[2]]) if o[0] == 0 else ('err', o[1]))
+    return res
+
+
+def corr_class_enum(ctx, corr):
+    rng = ctx.rng
+    cases = []
+    # every class key x template x typedef x friend x one specifier (or none) x next token: the whole decision table
+    for key in CE_KEYS:
+        for template in (False, True):
+            for td in (False, True):
+                for fr in (False, True):
+                    for fl in [()] + [(f,) for f in CE_FLAGS]:
+                        for nxt in sorted(set(CE_NEXT)):
+                            cases.append((key, fl, template, td, fr, [nxt, 'y', ';']))
+    for _ in range(ctx.scale(300, 6000)):
+        fl = tuple(f for f in CE_FLAGS if rng.random() < 0.2)
+        cases.append((rng.choice(CE_KEYS), fl, rng.random() < 0.3, rng.random() < 0.3, rng.random() < 0.3,
+                      [rng.choice(CE_NEXT) for _ in range(rng.choice([0, 1, 2, 3]))]))
+    ms = model_class_enum(cases)
+    for c, m in zip(cases, ms):
+        corr.cases += 1
+        r = real_class_enum(*c)
+        k = "class-enum:" + (m[2] if m[0] == 'ok' else 'err') + "/" + (r[2] if r[0] == 'ok' else r[0])
+        corr.dist[k] = corr.dist.get(k, 0) + 1
+        if r[0] == 'other':
+            continue
+        if (m[0] == 'ok') != (r[0] == 'ok') or (m[0] == 'ok' and m != r):
+            corr.disagreements.append(dict(case=dict(kind='corr-classenum', key=list(c[0]), flags=list(c[1]), template=c[2], is_typedef=c[3], is_friend=c[4], tokens=c[5]),
+                                           model=str(m), impl=str(r),
+                                           what="class/enum dispatch after `%s%s%s%s X` before `%s`: model %s, implementation %s" % (
+                                               'template<> ' if c[2] else '', 'typedef ' if c[3] else '', 'friend ' if c[4] else '',
+                                               ' '.join(list(c[1]) + list(c[0])), ' '.join(c[5]), m, r)))
+
+
 def correspond(ctx):
     corr = c05.correspond(ctx)
+    corr_class_enum(ctx, corr)
     corr_bases(ctx, corr)
     corr_fields(ctx, corr)
     corr_method_ends(ctx, corr)
@@ -713,6 +812,13 @@ def search(ctx, boost=False):
 
 
 def replay(ctx, case):
+    if case.get("kind") == "corr-classenum":
+        c = (tuple(case["key"]), tuple(case["flags"]), case["template"], case["is_typedef"], case["is_friend"], case["tokens"])
+        m = model_class_enum([c])[0]
+        r = real_class_enum(*c)
+        if r[0] != 'other' and ((m[0] == 'ok') != (r[0] == 'ok') or (m[0] == 'ok' and m != r)):
+            return ["class/enum dispatch: model %s, implementation %s" % (m, r)]
+        return []
     if case.get("kind") != "class":
         return []
 
